@@ -187,6 +187,9 @@ func runC10(w *World) {
 	if w.deep() && w.knob("deep", 3) == 0 {
 		per = 60
 	}
+	if w.knob("long", 8) == 1 {
+		per = 90 // well over a hundred events per receiver: anything counted per receiver shows
+	}
 	var writers []*Actor
 	for i := 0; i < nw; i++ {
 		i := i
